@@ -1,1 +1,782 @@
-//! placeholder
+//! C11 "FlatVec/FlatString behave as capacity-bounded Vec/String under every history": After any sequence of
+//! operations available on a mapped FlatVec or FlatString (push, pop, push_slice, extend, truncate, clear, remove,
+//! swap_remove, resize, element writes, push/push_str of chars and strings), its observable state (len, capacity,
+//! contents, remaining, size(), equality) equals that of an ordinary Vec/String whose growth is refused beyond the
+//! fixed capacity, the capacity never changes, and the bytes validate and re-map to the same state after every
+//! step.  Quantifier: for every element type / length type combination (element sizes and alignments 1..16, length
+//! types u8..u64 and portable ones, including capacities above the length type's maximum), every buffer size, and
+//! every finite sequence of operations with arbitrary arguments.
+//!
+//! C13 (FlatVec/FlatString part) "A rejected container operation leaves the container exactly as it was": When
+//! push, push_slice, push_str ... is refused (no room, length type exhausted), the container's observable state
+//! (length, items, size(), validity) is the same as before the call and later operations behave as if the failed
+//! call had never happened.
+//!
+//! Shape: ONE-STEP-FROM-ANY-VALID-STATE contracts.  The pre-state is any byte string (symbolic length <= N,
+//! symbolic contents) that the real `from_mut_bytes` accepts; this over-approximates every state reachable by a
+//! history of operations, so a one-step contract whose post-state is again checked to validate gives every finite
+//! history by induction.  The abstract model (`VModel` / `SModel`) is an ordinary array-backed Vec/String with a
+//! fixed capacity.
+//!
+//! BOUNDED stand-ins (stated per instantiation below): buffer length <= N bytes; the sampled (T, L) combinations
+//! are the instantiation list at the bottom of the file.  Panicking preconditions of the model (Vec::remove /
+//! swap_remove with index >= len; resize beyond the capacity = "growth refused" by panic) are assumed away, i.e.
+//! only the non-panicking domain of the model is compared.
+use crate::util::*;
+use core::mem::size_of;
+use flatty::portable::le;
+use flatty::prelude::*;
+use flatty::vec::Length;
+use flatty::{FlatString, FlatVec};
+
+// ---------------------------------------------------------------------------------------------------------------
+// reference side (written from the README / property text, not from the implementation)
+// ---------------------------------------------------------------------------------------------------------------
+
+/// smallest multiple of `a` that is >= `x`
+fn ceil_to(x: usize, a: usize) -> usize {
+    let r = x % a;
+    if r == 0 { x } else { x + (a - r) }
+}
+
+/// number of element slots of a FlatVec / FlatString mapped over `len` bytes:
+/// data starts at `doff`, the mapped extent is floored to a multiple of `align`, capacity is bounded by L::MAX
+fn ref_capacity(len: usize, align: usize, doff: usize, tsize: usize, lmax: usize) -> usize {
+    let data = (len - doff) - (len - doff) % align;
+    let slots = data / tsize;
+    if slots < lmax { slots } else { lmax }
+}
+
+/// raw decoding of the length field (first bytes of the buffer)
+trait RawLen {
+    const LMAX: usize;
+    fn rd_len(b: &[u8]) -> usize;
+}
+impl RawLen for u8 {
+    const LMAX: usize = u8::MAX as usize;
+    fn rd_len(b: &[u8]) -> usize { b[0] as usize }
+}
+impl RawLen for u16 {
+    const LMAX: usize = u16::MAX as usize;
+    fn rd_len(b: &[u8]) -> usize { u16::from_ne_bytes([b[0], b[1]]) as usize }
+}
+impl RawLen for u32 {
+    const LMAX: usize = u32::MAX as usize;
+    fn rd_len(b: &[u8]) -> usize { u32::from_ne_bytes([b[0], b[1], b[2], b[3]]) as usize }
+}
+impl RawLen for le::U16 {
+    const LMAX: usize = u16::MAX as usize;
+    fn rd_len(b: &[u8]) -> usize { u16::from_le_bytes([b[0], b[1]]) as usize }
+}
+
+/// raw decoding of one element at byte offset `at`
+trait RawElem: Sized {
+    fn rd_elem(b: &[u8], at: usize) -> Self;
+}
+impl RawElem for u8 {
+    fn rd_elem(b: &[u8], at: usize) -> Self { b[at] }
+}
+impl RawElem for u16 {
+    fn rd_elem(b: &[u8], at: usize) -> Self { u16::from_ne_bytes([b[at], b[at + 1]]) }
+}
+impl RawElem for u32 {
+    fn rd_elem(b: &[u8], at: usize) -> Self { u32::from_ne_bytes([b[at], b[at + 1], b[at + 2], b[at + 3]]) }
+}
+impl RawElem for u64 {
+    fn rd_elem(b: &[u8], at: usize) -> Self {
+        u64::from_ne_bytes([b[at], b[at + 1], b[at + 2], b[at + 3], b[at + 4], b[at + 5], b[at + 6], b[at + 7]])
+    }
+}
+impl RawElem for [u8; 3] {
+    fn rd_elem(b: &[u8], at: usize) -> Self { [b[at], b[at + 1], b[at + 2]] }
+}
+
+/// independent UTF-8 encoder (reference for String::push)
+fn enc_utf8(c: char) -> ([u8; 4], usize) {
+    let u = c as u32;
+    if u < 0x80 {
+        ([u as u8, 0, 0, 0], 1)
+    } else if u < 0x800 {
+        ([0xC0 | (u >> 6) as u8, 0x80 | (u & 0x3F) as u8, 0, 0], 2)
+    } else if u < 0x10000 {
+        ([0xE0 | (u >> 12) as u8, 0x80 | ((u >> 6) & 0x3F) as u8, 0x80 | (u & 0x3F) as u8, 0], 3)
+    } else {
+        ([0xF0 | (u >> 18) as u8, 0x80 | ((u >> 12) & 0x3F) as u8, 0x80 | ((u >> 6) & 0x3F) as u8, 0x80 | (u & 0x3F) as u8], 4)
+    }
+}
+
+// ---------------------------------------------------------------------------------------------------------------
+// FlatVec: model, mapping, state check
+// ---------------------------------------------------------------------------------------------------------------
+
+/// bounds every element type of the instantiation list satisfies
+trait Elem: Flat + Sized + Copy + PartialEq + Default + kani::Arbitrary + RawElem {}
+impl<T: Flat + Sized + Copy + PartialEq + Default + kani::Arbitrary + RawElem> Elem for T {}
+trait Len: Flat + Length + RawLen {}
+impl<L: Flat + Length + RawLen> Len for L {}
+
+/// ordinary Vec with a fixed capacity: first `n` entries of `it` are the contents
+#[derive(Clone, Copy)]
+struct VModel<T: Copy, const M: usize> {
+    n: usize,
+    cap: usize,
+    it: [T; M],
+}
+
+impl<T: Elem, const M: usize> VModel<T, M> {
+    /// snapshot through the safe accessors
+    fn of<L: Len>(v: &FlatVec<T, L>) -> Self {
+        let n = v.len();
+        let cap = v.capacity();
+        assert!(n <= cap && cap <= M, "harness bound: capacity exceeds the model array");
+        let s = v.as_slice();
+        assert!(s.len() == n);
+        let mut it = [T::default(); M];
+        let mut i = 0;
+        while i < M {
+            if i < n { it[i] = s[i]; }
+            i += 1;
+        }
+        VModel { n, cap, it }
+    }
+}
+
+/// the original buffer (to be re-mapped after the operation, when the `&mut FlatVec` is dead)
+type Raw = (*const u8, usize);
+
+/// any VALID state: symbolic length <= N, aligned start, symbolic contents, accepted by the real validator
+fn map_vec<'a, T: Elem, L: Len, const A: usize, const N: usize>() -> Option<(&'a mut FlatVec<T, L>, Raw)> {
+    let (len, off) = any_len_off(N, A);
+    kani::assume(off == 0); // a mapped value needs an aligned buffer
+    let b = sym_slice(len, A, off, N);
+    let raw = (b.as_ptr(), b.len());
+    match FlatVec::<T, L>::from_mut_bytes(b) {
+        Ok(v) => Some((v, raw)),
+        Err(_) => None,
+    }
+}
+
+/// observable state of `v` == model `m`; capacity as in the model; size() by the reference formula; the bytes
+/// validate and re-map to the same state
+fn check_vec<T: Elem, L: Len, const A: usize, const D: usize, const M: usize>(v: &FlatVec<T, L>, m: &VModel<T, M>, raw: Raw) {
+    let n = m.n;
+    assert!(v.len() == n, "C11: len differs from the Vec model");
+    assert!(v.capacity() == m.cap, "C11: capacity changed");
+    assert!(v.remaining() == m.cap - n, "C11: remaining() != capacity - len");
+    assert!(v.is_empty() == (n == 0), "C11: is_empty");
+    assert!(v.is_full() == (n == m.cap), "C11: is_full");
+    let s = v.as_slice();
+    assert!(s.len() == n, "C11: as_slice().len()");
+    let mut i = 0;
+    while i < M {
+        if i < n { assert!(s[i] == m.it[i], "C11: contents differ from the Vec model"); }
+        i += 1;
+    }
+    assert!(v.size() == ceil_to(D + n * size_of::<T>(), A), "C11: size() != ceil(DATA_OFFSET + len*size_of::<T>(), ALIGN)");
+    // the value's own bytes validate and re-map to the same state
+    let ab = v.as_bytes();
+    let r = FlatVec::<T, L>::from_bytes(ab);
+    assert!(r.is_ok(), "C11: as_bytes() of the value does not validate");
+    if let Ok(w) = r {
+        assert!(w.len() == n, "C11: as_bytes() re-maps to a different len");
+        let ws = w.as_slice();
+        let mut i = 0;
+        while i < M {
+            if i < n && i < ws.len() { assert!(ws[i] == m.it[i], "C11: as_bytes() re-maps to different contents"); }
+            i += 1;
+        }
+        assert!(w.capacity() == m.cap, "C11: as_bytes() re-maps to a different capacity");
+    }
+    // the buffer the value was mapped from validates and re-maps to the same state
+    let ob = unsafe { core::slice::from_raw_parts(raw.0, raw.1) };
+    let r = FlatVec::<T, L>::from_bytes(ob);
+    assert!(r.is_ok(), "C11: the buffer does not validate after the operation");
+    if let Ok(w) = r {
+        assert!(w.len() == n, "C11: buffer re-maps to a different len");
+        assert!(w.capacity() == m.cap, "C11: buffer re-maps to a different capacity");
+        let ws = w.as_slice();
+        let mut i = 0;
+        while i < M {
+            if i < n && i < ws.len() { assert!(ws[i] == m.it[i], "C11: buffer re-maps to different contents"); }
+            i += 1;
+        }
+    }
+}
+
+// ---------------------------------------------------------------------------------------------------------------
+// FlatVec operations (generic over the instantiation; A = ALIGN, D = DATA_OFFSET, N = buffer bound, M >= capacity)
+// ---------------------------------------------------------------------------------------------------------------
+
+/// accessors of a freshly mapped value == raw decoding of the bytes; acceptance == reference
+fn op_state<T: Elem, L: Len, const A: usize, const D: usize, const N: usize, const M: usize>() {
+    let (len, off) = any_len_off(N, A);
+    kani::assume(off == 0);
+    let b = sym_slice(len, A, off, N);
+    let raw = (b.as_ptr(), b.len());
+    // raw decoding first
+    let mut exp_ok = len >= D;
+    let mut rn = 0;
+    let mut cap = 0;
+    let mut it = [T::default(); M];
+    if exp_ok {
+        rn = L::rd_len(b);
+        cap = ref_capacity(len, A, D, size_of::<T>(), L::LMAX);
+        exp_ok = rn <= cap;
+        let mut i = 0;
+        while i < M {
+            if exp_ok && i < rn { it[i] = T::rd_elem(b, D + i * size_of::<T>()); }
+            i += 1;
+        }
+    }
+    let r = FlatVec::<T, L>::from_mut_bytes(b);
+    assert!(r.is_ok() == exp_ok, "C11: acceptance differs from the reference");
+    if let Ok(v) = r {
+        kani::cover!(rn == cap && cap > 0, "full vector");
+        kani::cover!(rn < cap, "non-full vector");
+        let m = VModel::<T, M> { n: rn, cap, it };
+        check_vec::<T, L, A, D, M>(v, &m, raw);
+        // the snapshot used by the other harnesses agrees
+        let m2 = VModel::<T, M>::of(v);
+        assert!(m2.n == rn && m2.cap == cap);
+    }
+}
+
+fn op_push<T: Elem, L: Len, const A: usize, const D: usize, const N: usize, const M: usize>() {
+    let Some((v, raw)) = map_vec::<T, L, A, N>() else { return };
+    let mut m = VModel::<T, M>::of(v);
+    let x: T = kani::any();
+    let r = v.push(x);
+    if m.n < m.cap {
+        kani::cover!(true, "push accepted");
+        assert!(r.is_ok(), "C11: push refused although len < capacity");
+        m.it[m.n] = x;
+        m.n += 1;
+    } else {
+        kani::cover!(true, "push refused");
+        // C13: the value comes back, the state is the old one (checked below against the unchanged model)
+        match r {
+            Err(y) => assert!(y == x, "C13: refused push returns a different item"),
+            Ok(()) => panic!("C11: push accepted beyond the capacity"),
+        }
+    }
+    check_vec::<T, L, A, D, M>(v, &m, raw);
+}
+
+fn op_pop<T: Elem, L: Len, const A: usize, const D: usize, const N: usize, const M: usize>() {
+    let Some((v, raw)) = map_vec::<T, L, A, N>() else { return };
+    let mut m = VModel::<T, M>::of(v);
+    let r = v.pop();
+    if m.n == 0 {
+        kani::cover!(true, "pop on empty");
+        assert!(r.is_none(), "C11: pop on an empty vector returned an item");
+    } else {
+        kani::cover!(true, "pop on non-empty");
+        m.n -= 1;
+        match r {
+            Some(y) => assert!(y == m.it[m.n], "C11: pop returned a different item than Vec::pop"),
+            None => panic!("C11: pop on a non-empty vector returned None"),
+        }
+    }
+    check_vec::<T, L, A, D, M>(v, &m, raw);
+}
+
+/// push_slice of 0..=K items
+fn op_push_slice<T: Elem, L: Len, const A: usize, const D: usize, const N: usize, const M: usize>() {
+    const K: usize = 3;
+    let Some((v, raw)) = map_vec::<T, L, A, N>() else { return };
+    let mut m = VModel::<T, M>::of(v);
+    let xs: [T; K] = kani::any();
+    let k: usize = kani::any();
+    kani::assume(k <= K);
+    let r = v.push_slice(&xs[..k]);
+    if k <= m.cap - m.n {
+        kani::cover!(k == K, "push_slice accepted (full-length slice)");
+        kani::cover!(k == 0, "push_slice of an empty slice");
+        assert!(r.is_ok(), "C11: push_slice refused although the slice fits");
+        let mut i = 0;
+        while i < K {
+            if i < k { m.it[m.n + i] = xs[i]; }
+            i += 1;
+        }
+        m.n += k;
+    } else {
+        kani::cover!(m.n < m.cap, "push_slice refused although part of the slice would fit");
+        kani::cover!(m.n == m.cap, "push_slice refused on a full vector");
+        // C13: nothing is copied (checked below against the unchanged model)
+        assert!(r.is_err(), "C11: push_slice accepted beyond the capacity");
+    }
+    check_vec::<T, L, A, D, M>(v, &m, raw);
+}
+
+/// extend_until_full with an iterator of 0..=K items: the prefix that fits is appended (Vec::extend refused at capacity)
+fn op_extend<T: Elem, L: Len, const A: usize, const D: usize, const N: usize, const M: usize>() {
+    const K: usize = 3;
+    let Some((v, raw)) = map_vec::<T, L, A, N>() else { return };
+    let mut m = VModel::<T, M>::of(v);
+    let xs: [T; K] = kani::any();
+    let k: usize = kani::any();
+    kani::assume(k <= K);
+    v.extend_until_full(xs[..k].iter().copied());
+    let room = m.cap - m.n;
+    let take = if k < room { k } else { room };
+    kani::cover!(take < k, "extend cut at the capacity");
+    kani::cover!(take == k && k == K, "extend takes everything");
+    let mut i = 0;
+    while i < K {
+        if i < take { m.it[m.n + i] = xs[i]; }
+        i += 1;
+    }
+    m.n += take;
+    check_vec::<T, L, A, D, M>(v, &m, raw);
+}
+
+fn op_truncate<T: Elem, L: Len, const A: usize, const D: usize, const N: usize, const M: usize>() {
+    let Some((v, raw)) = map_vec::<T, L, A, N>() else { return };
+    let mut m = VModel::<T, M>::of(v);
+    let new_len: usize = kani::any(); // arbitrary, also far above the capacity
+    v.truncate(new_len);
+    kani::cover!(new_len < m.n, "truncate shortens");
+    kani::cover!(new_len >= m.n, "truncate is a no-op");
+    if new_len < m.n { m.n = new_len; }
+    check_vec::<T, L, A, D, M>(v, &m, raw);
+}
+
+fn op_clear<T: Elem, L: Len, const A: usize, const D: usize, const N: usize, const M: usize>() {
+    let Some((v, raw)) = map_vec::<T, L, A, N>() else { return };
+    let mut m = VModel::<T, M>::of(v);
+    kani::cover!(m.n > 1, "clear of a vector with several items");
+    v.clear();
+    m.n = 0;
+    check_vec::<T, L, A, D, M>(v, &m, raw);
+}
+
+/// remove(i), i < len (Vec::remove panics otherwise)
+fn op_remove<T: Elem, L: Len, const A: usize, const D: usize, const N: usize, const M: usize>() {
+    let Some((v, raw)) = map_vec::<T, L, A, N>() else { return };
+    let mut m = VModel::<T, M>::of(v);
+    let i: usize = kani::any();
+    kani::assume(i < m.n);
+    kani::cover!(i + 1 < m.n, "remove shifts a tail");
+    kani::cover!(i + 1 == m.n, "remove of the last item");
+    let y = v.remove(i);
+    assert!(y == m.it[i], "C11: remove returned a different item than Vec::remove");
+    let mut j = 0;
+    while j < M {
+        if j >= i && j + 1 < m.n { m.it[j] = m.it[j + 1]; }
+        j += 1;
+    }
+    m.n -= 1;
+    check_vec::<T, L, A, D, M>(v, &m, raw);
+}
+
+/// swap_remove(i), i < len (Vec::swap_remove panics otherwise)
+fn op_swap_remove<T: Elem, L: Len, const A: usize, const D: usize, const N: usize, const M: usize>() {
+    let Some((v, raw)) = map_vec::<T, L, A, N>() else { return };
+    let mut m = VModel::<T, M>::of(v);
+    let i: usize = kani::any();
+    kani::assume(i < m.n);
+    kani::cover!(i + 1 < m.n, "swap_remove moves the last item");
+    kani::cover!(i + 1 == m.n, "swap_remove of the last item");
+    let y = v.swap_remove(i);
+    assert!(y == m.it[i], "C11: swap_remove returned a different item than Vec::swap_remove");
+    m.it[i] = m.it[m.n - 1];
+    m.n -= 1;
+    check_vec::<T, L, A, D, M>(v, &m, raw);
+}
+
+/// resize(new_len, x), new_len <= capacity (growth beyond the capacity is refused by a panic)
+fn op_resize<T: Elem, L: Len, const A: usize, const D: usize, const N: usize, const M: usize>() {
+    let Some((v, raw)) = map_vec::<T, L, A, N>() else { return };
+    let mut m = VModel::<T, M>::of(v);
+    let new_len: usize = kani::any();
+    kani::assume(new_len <= m.cap);
+    let x: T = kani::any();
+    kani::cover!(new_len > m.n + 1, "resize grows by several items");
+    kani::cover!(new_len < m.n, "resize shrinks");
+    v.resize(new_len, x);
+    let mut j = 0;
+    while j < M {
+        if j >= m.n && j < new_len { m.it[j] = x; }
+        j += 1;
+    }
+    m.n = new_len;
+    check_vec::<T, L, A, D, M>(v, &m, raw);
+}
+
+/// element write through IndexMut / as_mut_slice() / DerefMut, i < len
+fn op_write<T: Elem, L: Len, const A: usize, const D: usize, const N: usize, const M: usize>() {
+    let Some((v, raw)) = map_vec::<T, L, A, N>() else { return };
+    let mut m = VModel::<T, M>::of(v);
+    let i: usize = kani::any();
+    kani::assume(i < m.n);
+    let x: T = kani::any();
+    let how: u8 = kani::any();
+    if how == 0 {
+        v[i] = x;
+    } else if how == 1 {
+        v.as_mut_slice()[i] = x;
+    } else {
+        let s: &mut [T] = &mut **v; // FlatVec -> GenericVec -> [T]
+        assert!(s.len() == m.n);
+        s[i] = x;
+    }
+    kani::cover!(how == 0 && i > 0, "write through IndexMut");
+    kani::cover!(how > 1, "write through DerefMut");
+    m.it[i] = x;
+    check_vec::<T, L, A, D, M>(v, &m, raw);
+}
+
+/// `==` of two mapped vectors == equality of (len, contents), whatever the capacities are
+fn op_eq<T: Elem, L: Len, const A: usize, const D: usize, const N: usize, const M: usize>() {
+    let Some((a, _)) = map_vec::<T, L, A, N>() else { return };
+    let Some((b, _)) = map_vec::<T, L, A, N>() else { return };
+    let ma = VModel::<T, M>::of(a);
+    let mb = VModel::<T, M>::of(b);
+    let mut same = ma.n == mb.n;
+    let mut i = 0;
+    while i < M {
+        if i < ma.n && i < mb.n && ma.it[i] != mb.it[i] { same = false; }
+        i += 1;
+    }
+    let eq = *a == *b;
+    assert!(eq == same, "C11: == differs from Vec equality");
+    assert!((*a != *b) == !same, "C11: != differs from Vec inequality");
+    assert!(*a == *a, "C11: == is not reflexive");
+    kani::cover!(eq && ma.cap != mb.cap && ma.n > 0, "equal contents, different capacities");
+    kani::cover!(!eq && ma.n == mb.n, "same length, different contents");
+}
+
+/// C13: a refused push leaves (length, items, size(), validity) as they were, and a later operation behaves as if
+/// the refused call had never happened
+fn op13_push<T: Elem, L: Len, const A: usize, const D: usize, const N: usize, const M: usize>() {
+    let Some((v, raw)) = map_vec::<T, L, A, N>() else { return };
+    let mut m = VModel::<T, M>::of(v);
+    kani::assume(m.n == m.cap); // no room
+    let x: T = kani::any();
+    let r = v.push(x);
+    match r {
+        Err(y) => assert!(y == x, "C13: refused push returns a different item"),
+        Ok(()) => panic!("C13: push accepted on a full vector"),
+    }
+    check_vec::<T, L, A, D, M>(v, &m, raw);
+    // later operation: pop, then the same push succeeds
+    let p = v.pop();
+    if m.n == 0 {
+        kani::cover!(true, "refused push on a zero-capacity vector");
+        assert!(p.is_none(), "C13: pop after a refused push on an empty vector");
+    } else {
+        kani::cover!(true, "refused push on a full non-empty vector");
+        m.n -= 1;
+        assert!(p == Some(m.it[m.n]), "C13: pop after a refused push returns a different item");
+        assert!(v.push(x).is_ok(), "C13: push after pop refused");
+        m.it[m.n] = x;
+        m.n += 1;
+    }
+    check_vec::<T, L, A, D, M>(v, &m, raw);
+}
+
+/// C13: a refused push_slice copies nothing (also when a prefix would fit); later operations unaffected
+fn op13_push_slice<T: Elem, L: Len, const A: usize, const D: usize, const N: usize, const M: usize>() {
+    const K: usize = 3;
+    let Some((v, raw)) = map_vec::<T, L, A, N>() else { return };
+    let mut m = VModel::<T, M>::of(v);
+    let xs: [T; K] = kani::any();
+    let k: usize = kani::any();
+    kani::assume(k <= K && k > m.cap - m.n); // does not fit
+    kani::cover!(m.n < m.cap, "a prefix of the refused slice would fit");
+    let r = v.push_slice(&xs[..k]);
+    assert!(r.is_err(), "C13: push_slice accepted a slice that does not fit");
+    check_vec::<T, L, A, D, M>(v, &m, raw);
+    // later operation: the prefix that fits is accepted and lands right behind the old contents
+    let room = m.cap - m.n;
+    let r2 = v.push_slice(&xs[..room]);
+    assert!(r2.is_ok(), "C13: push_slice of a fitting slice refused after a refused push_slice");
+    let mut i = 0;
+    while i < K {
+        if i < room { m.it[m.n + i] = xs[i]; }
+        i += 1;
+    }
+    m.n += room;
+    check_vec::<T, L, A, D, M>(v, &m, raw);
+}
+
+// ---------------------------------------------------------------------------------------------------------------
+// FlatString: model, mapping, state check, operations (A = ALIGN = DATA_OFFSET = size of L)
+// ---------------------------------------------------------------------------------------------------------------
+
+/// ordinary String with a fixed capacity: first `n` bytes of `by` are the UTF-8 contents
+#[derive(Clone, Copy)]
+struct SModel<const M: usize> {
+    n: usize,
+    cap: usize,
+    by: [u8; M],
+}
+
+impl<const M: usize> SModel<M> {
+    fn of<L: Len>(v: &FlatString<L>) -> Self {
+        let n = v.len();
+        let cap = v.capacity();
+        assert!(n <= cap && cap <= M, "harness bound: capacity exceeds the model array");
+        let s = v.as_str().as_bytes();
+        assert!(s.len() == n);
+        let mut by = [0u8; M];
+        let mut i = 0;
+        while i < M {
+            if i < n { by[i] = s[i]; }
+            i += 1;
+        }
+        SModel { n, cap, by }
+    }
+    /// String::push_str when it fits
+    fn append(&mut self, s: &[u8], k: usize) {
+        let mut i = 0;
+        while i < 8 {
+            if i < k { self.by[self.n + i] = s[i]; }
+            i += 1;
+        }
+        self.n += k;
+    }
+}
+
+fn map_str<'a, L: Len, const A: usize, const N: usize>() -> Option<(&'a mut FlatString<L>, Raw)> {
+    let (len, off) = any_len_off(N, A);
+    kani::assume(off == 0);
+    let b = sym_slice(len, A, off, N);
+    let raw = (b.as_ptr(), b.len());
+    match FlatString::<L>::from_mut_bytes(b) {
+        Ok(v) => Some((v, raw)),
+        Err(_) => None,
+    }
+}
+
+fn check_str<L: Len, const A: usize, const M: usize>(v: &FlatString<L>, m: &SModel<M>, raw: Raw) {
+    let n = m.n;
+    assert!(v.len() == n, "C11: len differs from the String model");
+    assert!(v.capacity() == m.cap, "C11: capacity changed");
+    assert!(v.remaining() == m.cap - n, "C11: remaining() != capacity - len");
+    assert!(v.is_empty() == (n == 0), "C11: is_empty");
+    assert!(v.is_full() == (n == m.cap), "C11: is_full");
+    let s = v.as_str().as_bytes();
+    assert!(s.len() == n, "C11: as_str().len()");
+    let mut i = 0;
+    while i < M {
+        if i < n { assert!(s[i] == m.by[i], "C11: contents differ from the String model"); }
+        i += 1;
+    }
+    assert!(v.size() == ceil_to(A + n, A), "C11: size() != ceil(DATA_OFFSET + len, ALIGN)");
+    let ab = v.as_bytes();
+    let r = FlatString::<L>::from_bytes(ab);
+    assert!(r.is_ok(), "C11: as_bytes() of the value does not validate");
+    if let Ok(w) = r {
+        assert!(w.len() == n, "C11: as_bytes() re-maps to a different len");
+        assert!(w.capacity() == m.cap, "C11: as_bytes() re-maps to a different capacity");
+        let ws = w.as_str().as_bytes();
+        let mut i = 0;
+        while i < M {
+            if i < n && i < ws.len() { assert!(ws[i] == m.by[i], "C11: as_bytes() re-maps to different contents"); }
+            i += 1;
+        }
+    }
+    let ob = unsafe { core::slice::from_raw_parts(raw.0, raw.1) };
+    let r = FlatString::<L>::from_bytes(ob);
+    assert!(r.is_ok(), "C11: the buffer does not validate after the operation");
+    if let Ok(w) = r {
+        assert!(w.len() == n, "C11: buffer re-maps to a different len");
+        assert!(w.capacity() == m.cap, "C11: buffer re-maps to a different capacity");
+        let ws = w.as_str().as_bytes();
+        let mut i = 0;
+        while i < M {
+            if i < n && i < ws.len() { assert!(ws[i] == m.by[i], "C11: buffer re-maps to different contents"); }
+            i += 1;
+        }
+    }
+}
+
+/// every string of 0..=2 chars (0..=8 bytes): (bytes, byte length).  Built with the std encoder; the
+/// concatenation of two well-formed encodings is well-formed, so `from_utf8_unchecked` on the prefix is sound.
+fn any_str2() -> ([u8; 8], usize) {
+    let mut buf = [0u8; 8];
+    let nc: u8 = kani::any();
+    kani::assume(nc <= 2);
+    let mut k = 0;
+    if nc >= 1 {
+        let c: char = kani::any();
+        k += c.encode_utf8(&mut buf[k..]).len();
+    }
+    if nc >= 2 {
+        let c: char = kani::any();
+        k += c.encode_utf8(&mut buf[k..]).len();
+    }
+    (buf, k)
+}
+
+/// accessors of a freshly mapped string == raw bytes
+fn s_state<L: Len, const A: usize, const N: usize, const M: usize>() {
+    let (len, off) = any_len_off(N, A);
+    kani::assume(off == 0);
+    let b = sym_slice(len, A, off, N);
+    let raw = (b.as_ptr(), b.len());
+    let mut rn = 0;
+    let mut cap = 0;
+    let mut by = [0u8; M];
+    let mut shape_ok = len >= A;
+    if shape_ok {
+        rn = L::rd_len(b);
+        cap = ref_capacity(len, A, A, 1, L::LMAX);
+        shape_ok = rn <= cap;
+        let mut i = 0;
+        while i < M {
+            if shape_ok && i < rn { by[i] = b[A + i]; }
+            i += 1;
+        }
+    }
+    let r = FlatString::<L>::from_mut_bytes(b);
+    if !shape_ok { assert!(r.is_err(), "C11: a string whose length exceeds the capacity is accepted"); }
+    if let Ok(v) = r {
+        kani::cover!(rn == cap && cap > 1, "full string");
+        kani::cover!(rn > 0 && by[0] >= 0x80, "non-ASCII contents");
+        let m = SModel::<M> { n: rn, cap, by };
+        check_str::<L, A, M>(v, &m, raw);
+    }
+}
+
+fn s_push<L: Len, const A: usize, const N: usize, const M: usize>() {
+    let Some((v, raw)) = map_str::<L, A, N>() else { return };
+    let mut m = SModel::<M>::of(v);
+    let c: char = kani::any();
+    let (e, k) = enc_utf8(c);
+    let r = v.push(c);
+    if k <= m.cap - m.n {
+        kani::cover!(k == 4, "4-byte char accepted");
+        kani::cover!(k == 1, "ASCII char accepted");
+        assert!(r.is_ok(), "C11: push(char) refused although the encoding fits");
+        m.append(&e, k);
+    } else {
+        kani::cover!(m.n < m.cap, "push(char) refused although some bytes are free");
+        // C13: nothing is written (checked below against the unchanged model)
+        assert!(r.is_err(), "C11: push(char) accepted beyond the capacity");
+    }
+    check_str::<L, A, M>(v, &m, raw);
+}
+
+fn s_push_str<L: Len, const A: usize, const N: usize, const M: usize>() {
+    let Some((v, raw)) = map_str::<L, A, N>() else { return };
+    let mut m = SModel::<M>::of(v);
+    let (buf, k) = any_str2();
+    let s = unsafe { core::str::from_utf8_unchecked(&buf[..k]) };
+    let r = v.push_str(s);
+    if k <= m.cap - m.n {
+        kani::cover!(k >= 3, "push_str accepted (>= 3 bytes)");
+        kani::cover!(k == 0, "push_str of the empty string");
+        assert!(r.is_ok(), "C11: push_str refused although the string fits");
+        m.append(&buf, k);
+    } else {
+        kani::cover!(m.n < m.cap, "push_str refused although a prefix would fit");
+        // C13: nothing is written (checked below against the unchanged model)
+        assert!(r.is_err(), "C11: push_str accepted beyond the capacity");
+    }
+    check_str::<L, A, M>(v, &m, raw);
+}
+
+fn s_clear<L: Len, const A: usize, const N: usize, const M: usize>() {
+    let Some((v, raw)) = map_str::<L, A, N>() else { return };
+    let mut m = SModel::<M>::of(v);
+    kani::cover!(m.n > 1, "clear of a non-empty string");
+    v.clear();
+    m.n = 0;
+    check_str::<L, A, M>(v, &m, raw);
+    assert!(v.as_str() == "");
+}
+
+fn s_eq<L: Len, const A: usize, const N: usize, const M: usize>() {
+    let Some((a, _)) = map_str::<L, A, N>() else { return };
+    let Some((b, _)) = map_str::<L, A, N>() else { return };
+    let ma = SModel::<M>::of(a);
+    let mb = SModel::<M>::of(b);
+    let mut same = ma.n == mb.n;
+    let mut i = 0;
+    while i < M {
+        if i < ma.n && i < mb.n && ma.by[i] != mb.by[i] { same = false; }
+        i += 1;
+    }
+    let eq = *a == *b;
+    assert!(eq == same, "C11: == differs from String equality");
+    assert!((a.as_str() == b.as_str()) == same, "C11: as_str() equality differs from String equality");
+    kani::cover!(eq && ma.cap != mb.cap && ma.n > 0, "equal contents, different capacities");
+    kani::cover!(!eq && ma.n == mb.n, "same length, different contents");
+}
+
+/// C13: refused push(char) / push_str write nothing; a later fitting push_str lands right behind the old contents
+fn s13_push<L: Len, const A: usize, const N: usize, const M: usize>() {
+    let Some((v, raw)) = map_str::<L, A, N>() else { return };
+    let mut m = SModel::<M>::of(v);
+    let use_char: bool = kani::any();
+    let (buf, k) = if use_char {
+        let c: char = kani::any();
+        let (e, k) = enc_utf8(c);
+        kani::assume(k > m.cap - m.n);
+        let r = v.push(c);
+        assert!(r.is_err(), "C13: push(char) accepted a char that does not fit");
+        ([e[0], e[1], e[2], e[3], 0, 0, 0, 0], k)
+    } else {
+        let (buf, k) = any_str2();
+        kani::assume(k > m.cap - m.n);
+        let s = unsafe { core::str::from_utf8_unchecked(&buf[..k]) };
+        let r = v.push_str(s);
+        assert!(r.is_err(), "C13: push_str accepted a string that does not fit");
+        (buf, k)
+    };
+    kani::cover!(use_char && m.n < m.cap, "refused char, some bytes free");
+    kani::cover!(!use_char && m.n < m.cap, "refused str, some bytes free");
+    check_str::<L, A, M>(v, &m, raw);
+    // later operation: an ASCII string filling the room exactly is accepted
+    let room = m.cap - m.n;
+    let fill = [b'a'; 8];
+    let r2 = v.push_str(unsafe { core::str::from_utf8_unchecked(&fill[..room]) });
+    assert!(r2.is_ok(), "C13: fitting push_str refused after a refused push");
+    m.append(&fill, room);
+    check_str::<L, A, M>(v, &m, raw);
+}
+
+// ---------------------------------------------------------------------------------------------------------------
+// instantiations.  vh!(harness, op, T, L, ALIGN, DATA_OFFSET, N (BOUNDED: buffer length <= N), M (>= capacity), unwind)
+// ---------------------------------------------------------------------------------------------------------------
+
+macro_rules! vh {
+    ($name:ident, $op:ident, $T:ty, $L:ty, $A:literal, $D:literal, $N:literal, $M:literal, $U:literal) => {
+        #[kani::proof]
+        #[kani::unwind($U)]
+        fn $name() {
+            // BOUNDED: buffer length <= $N bytes (capacity <= $M items)
+            $op::<$T, $L, $A, $D, $N, $M>();
+        }
+    };
+}
+
+/// sh!(harness, op, L, ALIGN (= DATA_OFFSET), N (BOUNDED: buffer length <= N), M (>= capacity, >= 8 spare handled by ops), unwind)
+macro_rules! sh {
+    ($name:ident, $op:ident, $L:ty, $A:literal, $N:literal, $M:literal, $U:literal) => {
+        #[kani::proof]
+        #[kani::unwind($U)]
+        fn $name() {
+            // BOUNDED: buffer length <= $N bytes (capacity <= $N - $A bytes)
+            $op::<$L, $A, $N, $M>();
+        }
+    };
+}
+
+// FlatVec<u8,u16>: ALIGN 2, data at 2, N = 10 -> capacity <= 8
+vh!(c11_vec_u8_u16_state, op_state, u8, u16, 2, 2, 10, 8, 12);
+vh!(c11_vec_u8_u16_push, op_push, u8, u16, 2, 2, 10, 8, 12);
+vh!(c11_vec_u8_u16_pop, op_pop, u8, u16, 2, 2, 10, 8, 12);
+vh!(c11_vec_u8_u16_push_slice, op_push_slice, u8, u16, 2, 2, 10, 8, 12);
+vh!(c11_vec_u8_u16_extend, op_extend, u8, u16, 2, 2, 10, 8, 12);
+vh!(c11_vec_u8_u16_truncate, op_truncate, u8, u16, 2, 2, 10, 8, 12);
+vh!(c11_vec_u8_u16_clear, op_clear, u8, u16, 2, 2, 10, 8, 12);
+vh!(c11_vec_u8_u16_remove, op_remove, u8, u16, 2, 2, 10, 8, 12);
+vh!(c11_vec_u8_u16_swap_remove, op_swap_remove, u8, u16, 2, 2, 10, 8, 12);
+vh!(c11_vec_u8_u16_resize, op_resize, u8, u16, 2, 2, 10, 8, 12);
+vh!(c11_vec_u8_u16_write, op_write, u8, u16, 2, 2, 10, 8, 12);
+vh!(c11_vec_u8_u16_eq, op_eq, u8, u16, 2, 2, 8, 6, 10);
+vh!(c13_vec_u8_u16_push, op13_push, u8, u16, 2, 2, 10, 8, 12);
+vh!(c13_vec_u8_u16_push_slice, op13_push_slice, u8, u16, 2, 2, 10, 8, 12);
